@@ -2,6 +2,7 @@
 (* Trace validation for NfcDep: a recorded conversation of a real nfc.dep.Initiator
    with a real nfc.dep.Target over the simulated air (sim/air.py).  Events:
 
+     Activate(const, ipni)   (the same two objects are activated again)
      ICall(id, n, D)  TRet(n, sig)  TCall(id, n)  IRet(n, sig)  IErr(kind)  TEnd(kind)  Release(kind)
      Frame(dir, t, pni, mi, did, nad, len, sig, size, fate, heard, post)
 
@@ -15,10 +16,10 @@
 EXTENDS NfcDep, Json, IOUtils, TLCExt
 
 VARIABLES tid, l, soft
-tvars == <<cf, i, t, slot, pendI, pendT, nI, nT, viol, faults, stepFaults, last, now, tid, l, soft>>
+tvars == <<cf, i, t, slot, pendI, pendT, nI, nT, viol, faults, stepFaults, sess, last, now, tid, l, soft>>
 
 \* constants of the trace configuration (the per-trace configuration comes from the trace itself)
-TVs == SUBSET {"ack", "atn", "did0"}
+TVs == SUBSET {"ack", "atn", "did0", "ipni0", "tpni0"}
 TNone == {}
 
 Traces == ndJsonDeserialize(IOEnv.TRACE_FILE)
@@ -31,12 +32,14 @@ Sig(d, id, off, len) ==
     FoldLeft(LAMBDA acc, k : (acc * 31 + Byte(d, id, off + k - 1) + 1) % 65521, len % 65521, [k \in 1..len |-> k])
 Src(fr) == IF fr.dir = "IT" THEN "I" ELSE "T"
 
+CfOf(k) == [lrI |-> k.lrI, lrT |-> k.lrT, did |-> k.did, tdid |-> k.tdid, did0 |-> k.did0, nad |-> k.nad,
+            miuI |-> k.miuI, miuT |-> k.miuT, R |-> k.R]
+
 TInit ==
     /\ tid \in 1..Len(Traces)
     /\ l = 1
     /\ soft = {}
-    /\ InitWith([lrI |-> C.lrI, lrT |-> C.lrT, did |-> C.did, tdid |-> C.tdid, did0 |-> C.did0, nad |-> C.nad,
-                 miuI |-> C.miuI, miuT |-> C.miuT, R |-> C.R])
+    /\ InitWith(CfOf(C))
 
 \* the MIUs the two objects hold follow from what the receivers announced (invariant MiuOk); the
 \* conversation is validated with the MIUs the objects really hold, so that a wrong MIU shows up as
@@ -67,13 +70,15 @@ GTCall   == IsEv("TCall") /\ Ev.id = nT + 1 /\ TCall(Ev.n)
 GIRet    == IsEv("IRet") /\ IRet
 GIErr    == IsEv("IErr") /\ i.st = "err" /\ Stutter
 GRelease == IsEv("Release") /\ Release(Ev.kind)
+\* the same two objects are activated again; Ev.ipni is the initiator's PNI right after activate()
+GActivate == IsEv("Activate") /\ \E v \in Vs : Reactivate(CfOf(Ev.const), v) /\ i'.pni = Ev.ipni
 GTEnd    == IsEv("TEnd") /\ Stutter
             /\ CASE Ev.kind = "none" -> t.st = "none"
                  [] Ev.kind = "Protocol" -> t.st = "err"
                  [] Ev.kind \in {"BrokenLink", "Timeout"} -> i.st \in {"err", "end", "idle"} /\ t.st \in {"wait", "none"}
-                 [] Ev.kind = "NotActivated" -> i.st \in {"err", "end"} /\ t.ph = "first" /\ t.st = "wait"
+                 [] Ev.kind = "NotActivated" -> i.st \in {"err", "end", "idle"} /\ t.ph = "first" /\ t.st \in {"wait", "none"}
                  [] OTHER -> FALSE
-Guarded == GICall \/ GFrame \/ GTRet \/ GTCall \/ GIRet \/ GIErr \/ GRelease \/ GTEnd
+Guarded == GICall \/ GFrame \/ GTRet \/ GTCall \/ GIRet \/ GIErr \/ GRelease \/ GTEnd \/ GActivate
 
 \* ---- logged results and post-state
 ResOk ==
@@ -83,12 +88,15 @@ ResOk ==
                           /\ LET p == Whole(i.rx) IN Ev.n = p.n /\ Ev.sig = Sig("T", p.id, 0, p.n)
       [] Ev.a = "IErr" -> Ev.kind = i.err
       [] OTHER -> TRUE
-Proj == [ipni |-> i'.pni, tpni |-> t'.pni, ierr |-> i'.st = "err",
+\* (before the first request of a session Target.pni is whatever the previous session or a reset left: not judged here,
+\*  its effect is: see TRecv and invariant FirstPni)
+Proj == [ipni |-> i'.pni, tpni |-> IF t'.ph = "first" /\ sess' > 1 THEN Ev.post.tpni ELSE t'.pni, ierr |-> i'.st = "err",
          now |-> IF i'.st \in {"rel", "end"} THEN Ev.post.now ELSE now']
 PostOk == Ev.a = "Frame" => Proj = Ev.post
 
-InvNames == <<"MiuOk", "ExactlyOnce", "Intact", "OnlyCommErr", "FrameFits", "OneFaultOk", "TargetOk", "PniInSync">>
-InvP(n) == CASE n = "MiuOk" -> MiuOkP(cf')
+InvNames == <<"FirstPni", "MiuOk", "ExactlyOnce", "Intact", "OnlyCommErr", "FrameFits", "OneFaultOk", "TargetOk", "PniInSync">>
+InvP(n) == CASE n = "FirstPni" -> FirstPniP(t', slot', last')
+             [] n = "MiuOk" -> MiuOkP(cf')
              [] n = "ExactlyOnce" -> ExactlyOnceP(viol', pendI', pendT')
              [] n = "Intact" -> IntactP(i', t', pendI', pendT')
              [] n = "OnlyCommErr" -> OnlyCommErrP(i')
@@ -99,7 +107,8 @@ InvP(n) == CASE n = "MiuOk" -> MiuOkP(cf')
 AllInv == \A k \in DOMAIN InvNames : InvP(InvNames[k])
 
 Conform == Guarded /\ ResOk /\ PostOk
-Detail(n) == IF n = "MiuOk" THEN [miuI |-> cf.miuI, expI |-> cf.lrT - 3 - B(cf.did) - B(cf.nad),
+Detail(n) == IF n = "FirstPni" THEN [pni |-> slot'.pni, last |-> last', sess |-> sess']
+             ELSE IF n = "MiuOk" THEN [miuI |-> cf.miuI, expI |-> cf.lrT - 3 - B(cf.did) - B(cf.nad),
                                    miuT |-> cf.miuT, expT |-> cf.lrI - 3 - B(cf.tdid)]
              ELSE IF n = "FrameFits" THEN [dir |-> slot'.dir, t |-> slot'.t, did |-> slot'.did, size |-> Size(slot')]
              ELSE IF n = "OneFaultOk" THEN [mode |-> i'.mode, ph |-> i'.ph, err |-> i'.err, stepFaults |-> stepFaults']
@@ -132,7 +141,7 @@ Stuck ==
     /\ ~ENABLED Conform
     /\ PrintT(<<"STUCK", Traces[tid].id, l, Ev.a, Why>>)
     /\ l' = Len(T) + 2
-    /\ UNCHANGED <<cf, i, t, slot, pendI, pendT, nI, nT, viol, faults, stepFaults, last, now, tid, soft>>
+    /\ UNCHANGED <<cf, i, t, slot, pendI, pendT, nI, nT, viol, faults, stepFaults, sess, last, now, tid, soft>>
 
 TNext == Real \/ Stuck
 TSpec == TInit /\ [][TNext]_tvars
